@@ -1,1 +1,716 @@
-(* stub: to be written by group Rates *)
+(* The rate cache state machine (C13): invariant over look-ups and runs,
+   transparency with respect to the stateless reference look-up of
+   Spec/RateRule.v, download accounting. *)
+From Coq Require Import List NArith ZArith QArith Qcanon Bool Lia.
+From ACB Require Import Base.Outcome Base.QcExtra Base.Fit Base.Arith
+     Model.Rates Model.RatesCache Spec.RateRule Proofs.RatesProps.
+Import ListNotations.
+Local Open Scope Z_scope.
+
+Lemma restrict_some pub a x : restrict pub a x <> None -> x < a /\ pub x <> None.
+Proof.
+  unfold restrict. destruct (x <? a) eqn:E; [ | congruence ].
+  apply Z.ltb_lt in E. auto.
+Qed.
+Lemma restrict_lt pub a x : x < a -> restrict pub a x = pub x.
+Proof. intros H. unfold restrict. replace (x <? a) with true by (symmetry; apply Z.ltb_lt; lia). reflexivity. Qed.
+
+Lemma zmem_In y l : zmem y l = true <-> In y l.
+Proof.
+  induction l as [| x t IH]; cbn [zmem In]; [split; [discriminate | tauto] | ].
+  rewrite orb_true_iff, IH, Z.eqb_eq. tauto.
+Qed.
+
+Lemma mhas_true d l : mhas d l = true -> exists v, mget d l = Some v.
+Proof. unfold mhas. destruct (mget d l) as [v |]; [eauto | discriminate]. Qed.
+Lemma mhas_false d l : mhas d l = false -> mget d l = None.
+Proof. unfold mhas. destruct (mget d l); [discriminate | reflexivity]. Qed.
+
+Section Cache.
+  (* what the Bank of Canada publishes, ever *)
+  Variable truth : calendar.
+
+  (* parsed remote data of a run that sees everything published before [avail] *)
+  Definition rem (avail : Z) : Z -> list drate := pubrates (restrict truth avail).
+  (* the year a run with (today, avail) writes to the cache *)
+  Definition written (y today avail : Z) : list drate := fill (rem avail y) y today.
+
+  (* a run: its today, and the remote = truth published before avail,
+     today <= avail <= today + 1 (today's rate may or may not be out yet) *)
+  Definition run_ok (today avail : Z) (e : env) : Prop :=
+    e_today e = today /\ today <= avail <= today + 1 /\
+    forall y, parse_all (e_remote e y) = Ok (rem avail y).
+
+  (* every cached year is what some earlier (or this) run wrote *)
+  Definition CacheOk (today avail : Z) (cache : list (Z * list drate)) : Prop :=
+    forall y rates, aget y cache = Some rates ->
+      exists t' a', t' <= today /\ a' <= avail /\ t' <= a' <= t' + 1 /\ rates = written y t' a'.
+
+  Record Inv (today avail : Z) (s : st) : Prop := {
+    inv_cache : CacheOk today avail (s_cache s);
+    inv_years : forall y m, aget y (s_years s) = Some m -> aget y (s_cache s) = Some m;
+    inv_fresh : forall y, zmem y (s_fresh s) = true -> aget y (s_cache s) = Some (written y today avail);
+    inv_dl_nodup : NoDup (s_dl s);
+    inv_dl : forall y, In y (s_dl s) -> zmem y (s_fresh s) = true /\ aget y (s_years s) <> None
+  }.
+
+  Lemma CacheOk_mono t a t' a' c : t <= t' -> a <= a' -> CacheOk t a c -> CacheOk t' a' c.
+  Proof.
+    intros Ht Ha H y rates E. destruct (H y rates E) as (t0 & a0 & H1 & H2 & H3 & H4).
+    exists t0, a0. repeat split; try lia. exact H4.
+  Qed.
+
+  Lemma CacheOk_nil t a : CacheOk t a [].
+  Proof. intros y rates E. discriminate. Qed.
+
+  Lemma Inv_new_run t a s : CacheOk t a (s_cache s) -> Inv t a (new_run s).
+  Proof.
+    intros H. constructor; cbn [new_run s_cache s_years s_fresh s_dl].
+    - exact H.
+    - intros y m E. discriminate.
+    - intros y E. discriminate.
+    - constructor.
+    - intros y [].
+  Qed.
+
+  (* an entry of a cached year is the entry of today's reference map *)
+  Lemma cached_agrees today avail t' a' x v :
+    today <= avail <= today + 1 -> t' <= today -> a' <= avail -> t' <= a' <= t' + 1 ->
+    mget x (written (year_of x) t' a') = Some v ->
+    mget x (written (year_of x) today avail) = Some v.
+  Proof.
+    intros Hta Ht Ha Hta' E. unfold written, rem in *.
+    pose proof (year_of_spec x) as Sx. set (y := year_of x) in *.
+    rewrite fill_spec in E by apply pubrates_asc.
+    rewrite fill_spec by apply pubrates_asc.
+    destruct (jan1 y <=? x) eqn:E1; [ | discriminate ]. cbn [andb] in *.
+    destruct (x <? cover (pubrates (restrict truth a') y) y t') eqn:E2; [ | discriminate ].
+    apply Z.ltb_lt in E2. apply covered_iff in E2; [ | lia ].
+    assert (Hxa : x < a').
+    { destruct E2 as [L | [x' [Hx' Hp]]]; [lia | ]. apply restrict_some in Hp. lia. }
+    assert (Hc : x < cover (pubrates (restrict truth avail) y) y today).
+    { apply covered_iff; [lia | ].
+      destruct E2 as [L | [x' [Hx' Hp]]]; [left; lia | right].
+      exists x'. split; [lia | ]. apply restrict_some in Hp. rewrite restrict_lt by lia. tauto. }
+    replace (x <? cover (pubrates (restrict truth avail) y) y today) with true
+      by (symmetry; apply Z.ltb_lt; exact Hc).
+    inversion E as [Ev]. f_equal. unfold y.
+    rewrite !pubrates_valz. rewrite !restrict_lt by lia. reflexivity.
+  Qed.
+
+  (* the rest of get_exact_usd_cad_rate once the year map is at hand *)
+  Definition finish (today d : Z) (m : list drate) : sum lerr (option drate) :=
+    match mget d m with
+    | Some r => if Qceqb r 0%Qc then inr None else inr (Some (d, r))
+    | None => if today <=? d then inl LNotYet else inr None
+    end.
+
+  Lemma exact_ref_finish today avail d :
+    exact_ref (rem avail) today d = finish today d (written (year_of d) today avail).
+  Proof. reflexivity. Qed.
+
+  Lemma finish_ext today d m1 m2 : mget d m1 = mget d m2 -> finish today d m1 = finish today d m2.
+  Proof. unfold finish. intros ->. reflexivity. Qed.
+
+  (* state after a year map was put into year_rates *)
+  Definition ins (y : Z) (rates : list drate) (s : st) : st :=
+    {| s_years := (y, rates) :: s_years s; s_fresh := s_fresh s;
+       s_cache := s_cache s; s_dl := s_dl s |}.
+
+  Lemma aget_cons_eq {A} y (v : A) l : aget y ((y, v) :: l) = Some v.
+  Proof. cbn [aget]. rewrite Z.eqb_refl. reflexivity. Qed.
+  Lemma aget_cons_ne {A} y y' (v : A) l : y' <> y -> aget y ((y', v) :: l) = aget y l.
+  Proof. intros H. cbn [aget]. replace (y' =? y) with false by (symmetry; apply Z.eqb_neq; exact H). reflexivity. Qed.
+
+  Lemma Inv_ins today avail s y rates :
+    Inv today avail s -> aget y (s_cache s) = Some rates -> Inv today avail (ins y rates s).
+  Proof.
+    intros I Hc. destruct I as [I1 I2 I3 I4 I5].
+    constructor; cbn [ins s_cache s_years s_fresh s_dl]; auto.
+    - intros y' m E. destruct (Z.eq_dec y y') as [-> | NE].
+      + rewrite aget_cons_eq in E. injection E as <-. exact Hc.
+      + rewrite aget_cons_ne in E by exact NE. apply I2. exact E.
+    - intros y' Hin. destruct (I5 y' Hin) as [F Y]. split; [exact F | ].
+      destruct (Z.eq_dec y y') as [-> | NE].
+      + rewrite aget_cons_eq. discriminate.
+      + rewrite aget_cons_ne by exact NE. exact Y.
+  Qed.
+
+  (* download + insertion into year_rates *)
+  Lemma download_ins today avail e s y :
+    run_ok today avail e -> Inv today avail s -> ~ In y (s_dl s) ->
+    exists s1,
+      download e s y = Ok (s1, written y today avail) /\
+      s_dl s1 = y :: s_dl s /\
+      Inv today avail (ins y (written y today avail) s1).
+  Proof.
+    intros (Ht & Hta & Hrem) I Hnin. destruct I as [I1 I2 I3 I4 I5].
+    unfold download. rewrite Hrem. cbn [bind]. rewrite Ht.
+    eexists. split; [reflexivity | ]. split; [reflexivity | ].
+    fold (written y today avail).
+    constructor; cbn [ins s_cache s_years s_fresh s_dl].
+    - intros y' rates E. destruct (Z.eq_dec y y') as [-> | NE].
+      + rewrite aget_cons_eq in E. injection E as <-.
+        exists today, avail. repeat split; try lia.
+      + rewrite aget_cons_ne in E by exact NE. apply I1 in E. exact E.
+    - intros y' m E. destruct (Z.eq_dec y y') as [-> | NE].
+      + rewrite aget_cons_eq in E. rewrite aget_cons_eq. exact E.
+      + rewrite aget_cons_ne in E by exact NE. rewrite aget_cons_ne by exact NE. apply I2. exact E.
+    - intros y' F. destruct (Z.eq_dec y y') as [-> | NE].
+      + rewrite aget_cons_eq. reflexivity.
+      + rewrite aget_cons_ne by exact NE. apply I3.
+        cbn [zmem] in F. apply orb_true_iff in F. destruct F as [F | F]; [ | exact F ].
+        apply Z.eqb_eq in F. contradiction.
+    - constructor; assumption.
+    - intros y' [-> | Hin].
+      + split; [cbn [zmem]; rewrite Z.eqb_refl; reflexivity | rewrite aget_cons_eq; discriminate].
+      + destruct (I5 y' Hin) as [F Y]. split.
+        * cbn [zmem]. rewrite F. apply orb_true_r.
+        * destruct (Z.eq_dec y y') as [-> | NE];
+            [rewrite aget_cons_eq; discriminate | rewrite aget_cons_ne by exact NE; exact Y].
+  Qed.
+
+  (* fetch + insertion: the year map handed to the look-up agrees with the
+     reference map on the requested date *)
+  Lemma fetch_ins today avail e s d :
+    run_ok today avail e -> Inv today avail s -> ~ In (year_of d) (s_dl s) ->
+    exists s1 rates,
+      fetch e s d = Ok (s1, inr rates) /\
+      mget d rates = mget d (written (year_of d) today avail) /\
+      Inv today avail (ins (year_of d) rates s1) /\
+      (s_dl s1 = s_dl s \/ s_dl s1 = year_of d :: s_dl s).
+  Proof.
+    intros R I Hnin. set (y := year_of d) in *.
+    destruct (download_ins today avail e s y R I Hnin) as (sd & Ed & Edl & Id).
+    assert (Hdl : exists s1 rates,
+               ('(s1, rates) <- download e s y ;; Ok (s1, inr rates)) = Ok (s1, @inr lerr _ rates) /\
+               mget d rates = mget d (written y today avail) /\
+               Inv today avail (ins y rates s1) /\
+               (s_dl s1 = s_dl s \/ s_dl s1 = y :: s_dl s)).
+    { exists sd, (written y today avail). rewrite Ed. cbn [bind]. auto. }
+    unfold fetch. fold y.
+    destruct (e_force e); [exact Hdl | ].
+    pose proof I as [I1 I2 I3 I4 I5].
+    destruct (aget y (s_cache s)) as [rates |] eqn:Ec.
+    - destruct (zmem y (s_fresh s)) eqn:Ef.
+      + exists s, rates. split; [reflexivity | ].
+        rewrite (I3 y Ef) in Ec. inversion Ec. subst rates.
+        split; [reflexivity | ]. split; [ | left; reflexivity ].
+        apply Inv_ins; [exact I | ]. apply I3. exact Ef.
+      + destruct (mhas d rates) eqn:Eh; [ | exact Hdl ].
+        exists s, rates. split; [reflexivity | ].
+        split; [ | split; [apply Inv_ins; assumption | left; reflexivity] ].
+        destruct (mhas_true _ _ Eh) as [v Ev]. rewrite Ev. symmetry.
+        destruct (I1 y rates Ec) as (t' & a' & H1 & H2 & H3 & H4). subst rates.
+        destruct R as (_ & Hta & _).
+        unfold y in *. eapply cached_agrees; eauto.
+    - destruct (zmem y (s_fresh s)) eqn:Ef; [ | exact Hdl ].
+      rewrite (I3 y Ef) in Ec. discriminate.
+  Qed.
+
+  (* one get_exact_usd_cad_rate of the fixed code *)
+  Lemma exact_step today avail e s d :
+    run_ok today avail e -> Inv today avail s ->
+    exists s',
+      exact true e s d = Ok (s', exact_ref (rem avail) today d) /\
+      Inv today avail s' /\
+      (s_dl s' = s_dl s \/ s_dl s' = year_of d :: s_dl s).
+  Proof.
+    intros R I. pose proof R as (Ht & Hta & _). pose proof I as [I1 I2 I3 I4 I5].
+    rewrite exact_ref_finish. unfold exact. set (y := year_of d).
+    assert (Hload : ~ In y (s_dl s) ->
+      exists s',
+        ('(s1, r) <- ('(s1, r) <- fetch e s d ;;
+                      match r with
+                      | inl err => Ok (s1, inl err)
+                      | inr rates =>
+                          Ok ({| s_years := (y, rates) :: s_years s1; s_fresh := s_fresh s1;
+                                 s_cache := s_cache s1; s_dl := s_dl s1 |}, inr rates)
+                      end) ;;
+         match r with
+         | inl err => Ok (s1, inl err)
+         | inr m =>
+             match mget d m with
+             | Some r0 => if Qceqb r0 0%Qc then Ok (s1, inr None) else Ok (s1, inr (Some (d, r0)))
+             | None => if e_today e <=? d then Ok (s1, inl LNotYet) else Ok (s1, inr None)
+             end
+         end) = Ok (s', finish today d (written y today avail)) /\
+        Inv today avail s' /\ (s_dl s' = s_dl s \/ s_dl s' = y :: s_dl s)).
+    { intros Hnin.
+      destruct (fetch_ins today avail e s d R I Hnin) as (s1 & rates & Ef & Em & Ii & Edl).
+      rewrite Ef. cbn [bind]. fold y in Em, Ii, Edl.
+      exists (ins y rates s1). split; [ | split; [exact Ii | exact Edl] ].
+      unfold finish. rewrite <- Em. rewrite Ht. unfold ins.
+      destruct (mget d rates) as [r0 |]; [destruct (Qceqb r0 0%Qc); reflexivity | ].
+      destruct (today <=? d); reflexivity. }
+    destruct (aget y (s_years s)) as [m |] eqn:Ey.
+    - destruct (zmem y (s_fresh s)) eqn:Ef; cbn [negb andb].
+      + (* downloaded by this process: the map is today's reference map *)
+        exists s. split; [ | split; [exact I | left; reflexivity] ].
+        cbn [bind]. pose proof (I2 y m Ey) as Ec. rewrite (I3 y Ef) in Ec. inversion Ec. subst m.
+        unfold finish. rewrite Ht.
+        destruct (mget d (written y today avail)) as [r0 |]; [destruct (Qceqb r0 0%Qc); reflexivity | ].
+        destruct (today <=? d); reflexivity.
+      + destruct (mhas d m) eqn:Eh; cbn [negb].
+        * (* taken from the cache and it has the date *)
+          exists s. split; [ | split; [exact I | left; reflexivity] ].
+          cbn [bind].
+          assert (Em : mget d m = mget d (written y today avail)).
+          { destruct (mhas_true _ _ Eh) as [v Ev]. rewrite Ev. symmetry.
+            destruct (I1 y m (I2 y m Ey)) as (t' & a' & H1 & H2 & H3 & H4). subst m.
+            unfold y in *. eapply cached_agrees; eauto. }
+          unfold finish. rewrite <- Em. rewrite Ht.
+          destruct (mget d m) as [r0 |]; [destruct (Qceqb r0 0%Qc); reflexivity | ].
+          destruct (today <=? d); reflexivity.
+        * (* re-validation *)
+          apply Hload. intros Hin. destruct (I5 y Hin) as [F _]. congruence.
+    - apply Hload. intros Hin. destruct (I5 y Hin) as [_ Y]. contradiction.
+  Qed.
+
+  Lemma lookback_step today avail e : forall n s d,
+    run_ok today avail e -> Inv today avail s ->
+    exists s',
+      lookback true n e s d = Ok (s', lookback_ref (rem avail) today n d) /\ Inv today avail s'.
+  Proof.
+    induction n as [| k IH]; intros s d R I; cbn [lookback lookback_ref].
+    - exists s. auto.
+    - destruct (exact_step today avail e s (d - 1) R I) as (s1 & E & I1 & _).
+      rewrite E. cbn [bind].
+      destruct (exact_ref (rem avail) today (d - 1)) as [err | [x |]].
+      + exists s1. auto.
+      + exists s1. auto.
+      + apply IH; assumption.
+  Qed.
+
+  Lemma effective_step today avail e s d :
+    run_ok today avail e -> Inv today avail s ->
+    exists s',
+      effective true e s d = Ok (s', effective_ref (rem avail) today d) /\ Inv today avail s'.
+  Proof.
+    intros R I. unfold effective, effective_ref.
+    destruct (exact_step today avail e s d R I) as (s1 & E & I1 & _).
+    rewrite E. cbn [bind].
+    destruct (exact_ref (rem avail) today d) as [err | [x |]].
+    - exists s1. auto.
+    - exists s1. auto.
+    - apply lookback_step; assumption.
+  Qed.
+
+  Lemma lookups_step today avail e : forall ds s,
+    run_ok today avail e -> Inv today avail s ->
+    exists s',
+      lookups true e s ds = Ok (s', map (effective_ref (rem avail) today) ds) /\ Inv today avail s'.
+  Proof.
+    induction ds as [| d t IH]; intros s R I; cbn [lookups map].
+    - exists s. auto.
+    - destruct (effective_step today avail e s d R I) as (s1 & E & I1).
+      rewrite E. cbn [bind].
+      destruct (IH s1 R I1) as (s2 & E2 & I2). rewrite E2. cbn [bind].
+      exists s2. auto.
+  Qed.
+
+  (* ---- histories ---- *)
+  (* runs on successive days: today and the publication horizon never go back *)
+  Inductive runs_ok : Z -> Z -> list (env * list Z) -> list (Z * Z) -> Prop :=
+  | ro_nil t a : runs_ok t a [] []
+  | ro_cons t a e ds rest t' a' ps :
+      t <= t' -> a <= a' -> run_ok t' a' e -> runs_ok t' a' rest ps ->
+      runs_ok t a ((e, ds) :: rest) ((t', a') :: ps).
+
+  (* the answers a loader without any cache would give, run by run *)
+  Fixpoint ref_answers (runs : list (env * list Z)) (ps : list (Z * Z)) : list (list (sum lerr drate)) :=
+    match runs, ps with
+    | (e, ds) :: rest, (t, a) :: ps' => map (effective_ref (rem a) t) ds :: ref_answers rest ps'
+    | _, _ => []
+    end.
+
+  Lemma history_transparent : forall runs ps t a s,
+    runs_ok t a runs ps -> CacheOk t a (s_cache s) ->
+    exists s' outs,
+      history true s runs = Ok (s', outs) /\
+      map fst outs = ref_answers runs ps /\
+      Forall (fun o => NoDup (snd o)) outs.
+  Proof.
+    induction runs as [| [e ds] rest IH]; intros ps t a s H C; inversion H; subst; cbn [history ref_answers].
+    - exists s, []. repeat split; constructor.
+    - match goal with
+      | H1 : run_ok ?t' ?a' e, H2 : runs_ok ?t' ?a' rest ?ps' |- _ =>
+          rename H1 into R; rename H2 into Hrest
+      end.
+      assert (C' : CacheOk t' a' (s_cache s)) by (eapply CacheOk_mono; [ | | exact C]; lia).
+      destruct (lookups_step t' a' e ds (new_run s) R (Inv_new_run _ _ _ C')) as (s1 & E1 & I1).
+      rewrite E1. cbn [bind].
+      destruct (IH ps0 t' a' s1 Hrest (inv_cache _ _ _ I1)) as (s2 & outs & E2 & M & F).
+      rewrite E2. cbn [bind].
+      exists s2, ((map (effective_ref (rem a') t') ds, s_dl s1) :: outs).
+      split; [reflexivity | ]. split.
+      + cbn [map fst]. rewrite M. reflexivity.
+      + constructor; [exact (inv_dl_nodup _ _ _ I1) | exact F].
+  Qed.
+
+  (* ---- no download when the cached year covers the date ---- *)
+  Definition cache_has (s : st) (x : Z) : Prop :=
+    exists rates, aget (year_of x) (s_cache s) = Some rates /\ mhas x rates = true.
+
+  Lemma exact_covered today avail e s d s' r :
+    Inv today avail s -> e_force e = false -> cache_has s d ->
+    exact true e s d = Ok (s', r) ->
+    s_dl s' = s_dl s /\ s_cache s' = s_cache s.
+  Proof.
+    intros I Hf (rates & Ec & Eh) E. pose proof I as [I1 I2 I3 I4 I5].
+    unfold exact in E. set (y := year_of d) in *.
+    assert (Hload : forall s1 r1,
+      ('(s1, r) <- fetch e s d ;;
+       match r with
+       | inl err => Ok (s1, inl err)
+       | inr rates =>
+           Ok ({| s_years := (y, rates) :: s_years s1; s_fresh := s_fresh s1;
+                  s_cache := s_cache s1; s_dl := s_dl s1 |}, inr rates)
+       end) = Ok (s1, r1) -> s_dl s1 = s_dl s /\ s_cache s1 = s_cache s).
+    { intros s1 r1. unfold fetch. fold y. rewrite Hf, Ec, Eh.
+      destruct (zmem y (s_fresh s)); cbn [bind]; intros X; inversion X; subst; cbn; auto. }
+    destruct (aget y (s_years s)) as [m |] eqn:Ey.
+    - pose proof (I2 y m Ey) as Ec'. rewrite Ec in Ec'. inversion Ec'. subst m.
+      rewrite Eh in E. cbn [negb] in E. rewrite andb_false_r in E. cbn [bind] in E.
+      destruct (mget d rates) as [r0 |];
+        [destruct (Qceqb r0 0%Qc) | destruct (e_today e <=? d)]; inversion E; subst; auto.
+    - destruct (('(s1, r) <- fetch e s d ;;
+                 match r with
+                 | inl err => Ok (s1, inl err)
+                 | inr rates =>
+                     Ok ({| s_years := (y, rates) :: s_years s1; s_fresh := s_fresh s1;
+                            s_cache := s_cache s1; s_dl := s_dl s1 |}, inr rates)
+                 end)) as [[s1 r1] | |] eqn:El; cbn [bind] in E; try discriminate.
+      destruct (Hload s1 r1 eq_refl) as [D C].
+      destruct r1 as [err | m]; [inversion E; subst; auto | ].
+      destruct (mget d m) as [r0 |];
+        [destruct (Qceqb r0 0%Qc) | destruct (e_today e <=? d)]; inversion E; subst; auto.
+  Qed.
+
+  Lemma cache_has_ext s s' x : s_cache s' = s_cache s -> cache_has s x -> cache_has s' x.
+  Proof. unfold cache_has. intros ->. auto. Qed.
+
+  Lemma lookback_covered today avail e : forall n s d s' r,
+    run_ok today avail e -> Inv today avail s -> e_force e = false ->
+    (forall x, d - Z.of_nat n <= x < d -> cache_has s x) ->
+    lookback true n e s d = Ok (s', r) ->
+    s_dl s' = s_dl s /\ s_cache s' = s_cache s.
+  Proof.
+    induction n as [| k IH]; intros s d s' r R I Hf Hc E; cbn [lookback] in E.
+    - inversion E; subst. auto.
+    - destruct (exact_step today avail e s (d - 1) R I) as (s1 & E1 & I1 & _).
+      rewrite E1 in E. cbn [bind] in E.
+      destruct (exact_covered today avail e s (d - 1) s1 _ I Hf (Hc (d - 1) ltac:(lia)) E1) as [D C].
+      destruct (exact_ref (rem avail) today (d - 1)) as [err | [x |]].
+      + inversion E; subst. auto.
+      + inversion E; subst. auto.
+      + destruct (IH s1 (d - 1) s' r R I1 Hf) as [D' C']; [ | exact E | ].
+        * intros x Hx. apply (cache_has_ext s); [exact C | apply Hc; lia].
+        * split; congruence.
+  Qed.
+
+  Lemma effective_covered today avail e s d s' r :
+    run_ok today avail e -> Inv today avail s -> e_force e = false ->
+    (forall x, d - 7 <= x <= d -> cache_has s x) ->
+    effective true e s d = Ok (s', r) ->
+    s_dl s' = s_dl s.
+  Proof.
+    intros R I Hf Hc E. unfold effective in E.
+    destruct (exact_step today avail e s d R I) as (s1 & E1 & I1 & _).
+    rewrite E1 in E. cbn [bind] in E.
+    destruct (exact_covered today avail e s d s1 _ I Hf (Hc d ltac:(lia)) E1) as [D C].
+    destruct (exact_ref (rem avail) today d) as [err | [x |]].
+    - inversion E; subst. exact D.
+    - inversion E; subst. exact D.
+    - destruct (lookback_covered today avail e 7 s1 d s' r R I1 Hf) as [D' _]; [ | exact E | congruence ].
+      intros x Hx. apply (cache_has_ext s); [exact C | apply Hc; lia].
+  Qed.
+End Cache.
+
+(* ---- the code before the fix: a stale answer inside one run ---- *)
+Local Open Scope Qc_scope.
+Definition ex_truth : calendar :=
+  fun x => if ((18995 <=? x) && (x <=? 19011) && negb (Z.modulo (x + 4) 7 =? 6) && negb (Z.modulo (x + 4) 7 =? 0))%Z
+           then Some (Qcfrac (12000 + x) 10000) else None.
+Definition ex_obs (avail y : Z) : list obs :=
+  map (fun dr => {| o_date := Some (fst dr); o_noon := JGood (snd dr); o_daily := JAbsent |})
+      (pubrates (restrict ex_truth avail) y).
+Definition ex_env (today : Z) : env :=
+  {| e_today := today; e_force := false; e_remote := ex_obs today |}.
+
+Lemma parse_all_noon l :
+  parse_all (map (fun dr => {| o_date := Some (fst dr); o_noon := JGood (snd dr); o_daily := JAbsent |}) l) = Ok l.
+Proof.
+  induction l as [| [d r] t IH]; cbn [map parse_all]; [reflexivity | ].
+  cbn [parse_obs o_date o_noon fst snd bind]. rewrite IH. reflexivity.
+Qed.
+
+Lemma ex_env_run_ok today : run_ok ex_truth today today (ex_env today).
+Proof.
+  split; [reflexivity | ]. split; [lia | ].
+  intros y. unfold ex_env, ex_obs, rem. cbn [e_remote]. apply parse_all_noon.
+Qed.
+
+(* first run on 2022-01-11 asks for 5 January; the second run on 2022-01-20
+   asks for 5 January and then for 14 January *)
+Definition ex_runs : list (env * list Z) :=
+  [(ex_env 19003, [18997%Z]); (ex_env 19012, [18997%Z; 19006%Z])].
+Definition ex_params : list (Z * Z) := [(19003, 19003); (19012, 19012)]%Z.
+
+Lemma ex_runs_ok : runs_ok ex_truth 0 0 ex_runs ex_params.
+Proof.
+  unfold ex_runs, ex_params.
+  apply ro_cons; [lia | lia | apply ex_env_run_ok | ].
+  apply ro_cons; [lia | lia | apply ex_env_run_ok | ].
+  apply ro_nil.
+Qed.
+
+(* with the code before the fix the second look-up of the second run is
+   answered with the rate of 10 January, without a download; without a cache
+   it is the rate of 14 January *)
+Lemma unfixed_stale :
+  exists s outs,
+    history false empty_st ex_runs = Ok (s, outs) /\
+    map fst outs <> ref_answers ex_truth ex_runs ex_params /\
+    nth 1 (map fst outs) [] = [inr (18997%Z, Qcfrac 30997 10000); inr (19002%Z, Qcfrac 31002 10000)] /\
+    nth 1 (ref_answers ex_truth ex_runs ex_params) []
+      = [inr (18997%Z, Qcfrac 30997 10000); inr (19006%Z, Qcfrac 31006 10000)] /\
+    nth 1 (map snd outs) [] = [].
+Proof.
+  destruct (history false empty_st ex_runs) as [[s outs] | |] eqn:E; [ | vm_compute in E; discriminate.. ].
+  exists s, outs. split; [reflexivity | ].
+  vm_compute in E. inversion E; subst. clear E.
+  split; [vm_compute; intros H; discriminate H | ].
+  split; [vm_compute; reflexivity | ]. split; vm_compute; reflexivity.
+Qed.
+
+(* the same history with the fixed code *)
+Lemma fixed_example :
+  exists s outs,
+    history true empty_st ex_runs = Ok (s, outs) /\
+    map fst outs = ref_answers ex_truth ex_runs ex_params /\
+    map snd outs = [[2022%Z]; [2022%Z]].
+Proof.
+  destruct (history true empty_st ex_runs) as [[s outs] | |] eqn:E; [ | vm_compute in E; discriminate.. ].
+  exists s, outs. split; [reflexivity | ].
+  vm_compute in E. inversion E; subst. clear E.
+  split; vm_compute; reflexivity.
+Qed.
+
+(* ---- the application path: rows of a file (load_tx_rates, Tx::try_from) ---- *)
+Section Rows.
+  Variable ans : Z -> sum lerr drate.     (* the look-up, by trade date *)
+
+  Definition load_one_ref (td : Z) (cur : option currency) (fx : option Qc)
+    : sum (sum lerr row_err) (option Qc) :=
+    match load_decide cur fx with
+    | LKeep => inr fx
+    | LErr err => inl (inr err)
+    | LLoadUsd => match ans td with inl err => inl (inl err) | inr (_, r) => inr (Some r) end
+    end.
+
+  Fixpoint load_rows_ref (rs : list row) : sum rows_err (list row) :=
+    match rs with
+    | [] => inr []
+    | r :: t =>
+        match load_one_ref (r_td r) (r_cur r) (r_fx r) with
+        | inl err => inl (wrap_err false err)
+        | inr fx =>
+            match load_one_ref (r_td r) (r_ccur r) (r_cfx r) with
+            | inl err => inl (wrap_err true err)
+            | inr cfx =>
+                match load_rows_ref t with
+                | inl err => inl err
+                | inr l => inr ({| r_td := r_td r; r_cur := r_cur r; r_fx := fx;
+                                   r_ccur := r_ccur r; r_cfx := cfx |} :: l)
+                end
+            end
+        end
+    end.
+
+  Definition app_rows_ref (rs : list row) : sum rows_err (list (Qc * Qc)) :=
+    match load_rows_ref rs with inl err => inl err | inr l => rows_rates l end.
+
+  (* what the rates of an accepted row are, column pair by column pair *)
+  Definition pair_ok (td : Z) (cur : option currency) (fx : option Qc) (used : option Qc) : Prop :=
+    match fx with
+    | Some q => used = Some q                         (* an explicit rate always wins *)
+    | None =>
+        match cur with
+        | Some USD => exists x r, ans td = inr (x, r) /\ used = Some r   (* looked up by TRADE date *)
+        | Some CAD => used = Some 1%Qc
+        | Some (OtherCur _) => False                  (* must carry its own rate *)
+        | None => used = None
+        end
+    end.
+
+  Lemma valid_rate_inr cur fx x :
+    valid_rate cur fx = inr x ->
+    match x with
+    | Some (c, q) => cur = Some c /\ (0 < q)%Qc /\ (c = CAD -> q = 1%Qc) /\
+                     (fx = Some q \/ (fx = None /\ c = CAD /\ q = 1%Qc))
+    | None => cur = None /\ fx = None
+    end.
+  Proof.
+    unfold valid_rate. destruct cur as [c |]; destruct fx as [q |]; intros H; try discriminate.
+    - destruct (Qcltb_spec 0%Qc q) as [P | NP]; [ | discriminate ].
+      destruct (is_default c && negb (Qceqb q 1%Qc)) eqn:E; [discriminate | ].
+      inversion H; subst. split; [reflexivity | ]. split; [exact P | ]. split; [ | left; reflexivity ].
+      intros ->. cbn [is_default andb] in E. apply negb_false_iff in E.
+      apply Qceqb_true in E. exact E.
+    - destruct (is_default c) eqn:E; [ | discriminate ]. inversion H; subst.
+      split; [destruct c; try discriminate; reflexivity | ].
+      split; [reflexivity | ]. split; [reflexivity | ]. right. auto.
+    - inversion H; subst. auto.
+  Qed.
+
+  Lemma load_one_ref_inr td cur fx fx' :
+    load_one_ref td cur fx = inr fx' ->
+    match fx with
+    | Some q => fx' = Some q
+    | None =>
+        match cur with
+        | Some USD => exists x r, ans td = inr (x, r) /\ fx' = Some r
+        | Some CAD => fx' = None
+        | Some (OtherCur _) => False
+        | None => fx' = None
+        end
+    end.
+  Proof.
+    unfold load_one_ref, load_decide. destruct fx as [q |].
+    - intros H. inversion H. reflexivity.
+    - destruct cur as [[ | | n] |]; cbn [is_default]; intros H; try (inversion H; reflexivity); try discriminate.
+      destruct (ans td) as [err | [x r]]; [discriminate | ]. inversion H. eauto.
+  Qed.
+
+  Lemma app_rows_ref_spec : forall rs l,
+    app_rows_ref rs = inr l ->
+    forall i r tx cm, nth_error rs i = Some r -> nth_error l i = Some (tx, cm) ->
+      pair_ok (r_td r) (r_cur r) (r_fx r)
+              (match r_cur r, r_fx r with None, None => None | _, _ => Some tx end) /\
+      pair_ok (r_td r) (r_ccur r) (r_cfx r)
+              (match r_ccur r, r_cfx r with None, None => None | _, _ => Some cm end) /\
+      (r_cur r = None -> r_fx r = None -> tx = 1%Qc) /\
+      (r_ccur r = None -> r_cfx r = None -> cm = tx) /\
+      (0 < tx)%Qc /\ (0 < cm)%Qc.
+  Proof.
+    unfold app_rows_ref.
+    induction rs as [| r0 t IH]; intros l H i r tx cm Hr Hl.
+    - destruct i; discriminate.
+    - cbn [load_rows_ref] in H.
+      destruct (load_one_ref (r_td r0) (r_cur r0) (r_fx r0)) as [e1 | fx'] eqn:E1; [discriminate | ].
+      destruct (load_one_ref (r_td r0) (r_ccur r0) (r_cfx r0)) as [e2 | cfx'] eqn:E2; [discriminate | ].
+      destruct (load_rows_ref t) as [e3 | lt] eqn:E3; [discriminate | ].
+      cbn [rows_rates] in H.
+      destruct (row_rates {| r_td := r_td r0; r_cur := r_cur r0; r_fx := fx'; r_ccur := r_ccur r0; r_cfx := cfx' |})
+        as [e4 | [tx0 cm0]] eqn:E4; [discriminate | ].
+      destruct (rows_rates lt) as [e5 | l5] eqn:E5; [discriminate | ].
+      inversion H; subst l. clear H.
+      destruct i as [| j].
+      + cbn [nth_error] in Hr, Hl. inversion Hr; subst r0. inversion Hl; subst tx0 cm0. clear Hr Hl.
+        unfold row_rates in E4. cbn [r_cur r_fx r_ccur r_cfx] in E4.
+        destruct (valid_rate (r_cur r) fx') as [e6 | v1] eqn:V1; [discriminate | ].
+        destruct (valid_rate (r_ccur r) cfx') as [e7 | v2] eqn:V2; [discriminate | ].
+        apply valid_rate_inr in V1. apply valid_rate_inr in V2.
+        apply load_one_ref_inr in E1. apply load_one_ref_inr in E2.
+        assert (Htx : tx = match v1 with Some (_, q) => q | None => 1%Qc end)
+          by (destruct v2 as [[c2 q2] |]; inversion E4; reflexivity).
+        assert (Hcm : cm = match v2 with Some (_, q) => q | None => tx end)
+          by (destruct v2 as [[c2 q2] |]; inversion E4; subst; reflexivity).
+        clear E4.
+        assert (P1 : (0 < tx)%Qc).
+        { subst tx. destruct v1 as [[c1 q1] |]; [tauto | reflexivity]. }
+        assert (P2 : (0 < cm)%Qc).
+        { rewrite Hcm. destruct v2 as [[c2 q2] |]; [tauto | exact P1]. }
+        repeat split; try assumption.
+        * (* transaction currency pair *)
+          unfold pair_ok. destruct (r_fx r) as [q |] eqn:Efx.
+          -- subst fx'. destruct v1 as [[c1 q1] |].
+             ++ destruct V1 as (Hc & _ & _ & [Hq | (Hq & _)]); [ | discriminate ].
+                injection Hq as Hq. rewrite Hc, Htx, <- Hq. reflexivity.
+             ++ destruct V1 as [_ V1]. discriminate.
+          -- destruct (r_cur r) as [[ | | n] |] eqn:Ec.
+             ++ subst fx'. destruct v1 as [[c1 q1] |]; [ | destruct V1; discriminate ].
+                destruct V1 as (Hc & _ & H1 & _). injection Hc as Hc. rewrite Htx, H1 by (symmetry; exact Hc). reflexivity.
+             ++ destruct E1 as (x & r1 & Ea & Ef). subst fx'.
+                destruct v1 as [[c1 q1] |]; [ | destruct V1; discriminate ].
+                destruct V1 as (_ & _ & _ & [Hq | (Hq & _)]); [ | discriminate ].
+                injection Hq as Hq. exists x, r1. rewrite Htx, <- Hq. auto.
+             ++ contradiction.
+             ++ reflexivity.
+        * (* commission currency pair *)
+          unfold pair_ok. destruct (r_cfx r) as [q |] eqn:Efx.
+          -- subst cfx'. destruct v2 as [[c2 q2] |].
+             ++ destruct V2 as (Hc & _ & _ & [Hq | (Hq & _)]); [ | discriminate ].
+                injection Hq as Hq. rewrite Hc, Hcm, <- Hq. reflexivity.
+             ++ destruct V2 as [_ V2]. discriminate.
+          -- destruct (r_ccur r) as [[ | | n] |] eqn:Ec.
+             ++ subst cfx'. destruct v2 as [[c2 q2] |]; [ | destruct V2; discriminate ].
+                destruct V2 as (Hc & _ & H1 & _). injection Hc as Hc. rewrite Hcm, H1 by (symmetry; exact Hc). reflexivity.
+             ++ destruct E2 as (x & r1 & Ea & Ef). subst cfx'.
+                destruct v2 as [[c2 q2] |]; [ | destruct V2; discriminate ].
+                destruct V2 as (_ & _ & _ & [Hq | (Hq & _)]); [ | discriminate ].
+                injection Hq as Hq. exists x, r1. rewrite Hcm, <- Hq. auto.
+             ++ contradiction.
+             ++ reflexivity.
+        * intros Hc Hf. rewrite Hc, Hf in *. subst fx'.
+          destruct v1 as [[c1 q1] |]; [destruct V1; discriminate | exact Htx].
+        * intros Hc Hf. rewrite Hc, Hf in *. subst cfx'.
+          destruct v2 as [[c2 q2] |]; [destruct V2; discriminate | exact Hcm].
+      + cbn [nth_error] in Hr, Hl. eapply IH; [ | exact Hr | exact Hl ].
+        reflexivity.
+  Qed.
+End Rows.
+
+Section RowsMachine.
+  Variable truth : calendar.
+
+  Lemma load_one_step today avail e s td cur fx :
+    run_ok truth today avail e -> Inv truth today avail s ->
+    exists s',
+      load_one true e s td cur fx
+        = Ok (s', load_one_ref (effective_ref (rem truth avail) today) td cur fx) /\
+      Inv truth today avail s'.
+  Proof.
+    intros R I. unfold load_one, load_one_ref.
+    destruct (load_decide cur fx).
+    - exists s. auto.
+    - destruct (effective_step truth today avail e s td R I) as (s1 & E & I1).
+      rewrite E. cbn [bind]. exists s1. split; [ | exact I1 ].
+      destruct (effective_ref (rem truth avail) today td) as [err | [x r]]; reflexivity.
+    - exists s. auto.
+  Qed.
+
+  Lemma load_rows_step today avail e : forall rs s,
+    run_ok truth today avail e -> Inv truth today avail s ->
+    exists s',
+      load_rows true e s rs
+        = Ok (s', load_rows_ref (effective_ref (rem truth avail) today) rs) /\
+      Inv truth today avail s'.
+  Proof.
+    induction rs as [| r t IH]; intros s R I; cbn [load_rows load_rows_ref].
+    - exists s. auto.
+    - destruct (load_one_step today avail e s (r_td r) (r_cur r) (r_fx r) R I) as (s1 & E1 & I1).
+      rewrite E1. cbn [bind].
+      destruct (load_one_ref (effective_ref (rem truth avail) today) (r_td r) (r_cur r) (r_fx r)) as [err | fx'].
+      + exists s1. auto.
+      + destruct (load_one_step today avail e s1 (r_td r) (r_ccur r) (r_cfx r) R I1) as (s2 & E2 & I2).
+        rewrite E2. cbn [bind].
+        destruct (load_one_ref (effective_ref (rem truth avail) today) (r_td r) (r_ccur r) (r_cfx r)) as [err | cfx'].
+        * exists s2. auto.
+        * destruct (IH s2 R I2) as (s3 & E3 & I3). rewrite E3. cbn [bind].
+          exists s3. split; [ | exact I3 ].
+          destruct (load_rows_ref (effective_ref (rem truth avail) today) t); reflexivity.
+  Qed.
+
+  Lemma app_rows_eq today avail e rs :
+    run_ok truth today avail e ->
+    app_rows true e rs = Ok (app_rows_ref (effective_ref (rem truth avail) today) rs).
+  Proof.
+    intros R. unfold app_rows, app_rows_ref.
+    assert (I0 : Inv truth today avail empty_st) by (apply (Inv_new_run truth today avail empty_st), CacheOk_nil).
+    destruct (load_rows_step today avail e rs empty_st R I0) as (s' & E & _).
+    rewrite E. cbn [bind].
+    destruct (load_rows_ref (effective_ref (rem truth avail) today) rs); reflexivity.
+  Qed.
+End RowsMachine.
